@@ -185,6 +185,8 @@ Definition sem_step (e : env) (a : acfg) (o : op) : acfg * Z :=
       let '(p1, ok) := open_port e (a_port a) (a_fwmark a) in
       (a_set_net a p1 (a_fwmark a) ok, if ok then 0%Z else (-1)%Z)
   | ODown => (a_set_net a (a_port a) (a_fwmark a) false, 0%Z)
+  | OGetFail => (a, EIO)          (* a get, delivered or not, changes nothing *)
+  | OHangup => (a, 0%Z)
   end.
 
 (* ----- the observable configuration ----- *)
